@@ -146,8 +146,9 @@ def interp (f : FieldSpec) (w bits : Nat) : Val :=
 
 /-- `_set_attribute_single` -/
 def decField (c : Ctx) (fid : Nat) (idx : List Nat) (s : DState) : Except DecErr DState :=
-  if h : fid < c.T.fields.size then
-    let f := c.T.fields[fid]
+  match c.T.field? fid with
+  | none => .error .noField
+  | some f =>
     let T := c.T
     -- width (DF396 is NSat * NSig wide)
     let wE : Except DecErr Nat :=
@@ -245,7 +246,6 @@ def decField (c : Ctx) (fid : Nat) (idx : List Nat) (s : DState) : Except DecErr
       | [], _ => .error .badIndex
       | _, none => .error .noAttr
     else .ok s2
-  else .error .noField
 
 /-- run `f 1, f 2, …, f n` threading the state (the `for i in range(gsiz)` loop) -/
 def repLoop (f : Nat → DState → Except DecErr DState) : Nat → Nat → DState → Except DecErr DState
